@@ -110,8 +110,10 @@ def bed_case(rng, tier, want="roundtrip", kind=None, compress=None, zoom_mode=No
     o, zm = options(rng, tier, compress, zoom_mode, small_index)
     o[6] = sort_all
     ips, bs = o[1], o[2]
-    exact_bytes = (o[0] == 0 and zm == "none")
-    flags = 3 if exact_bytes else 0
+    exact_bytes = (o[0] == 0)
+    flags = 1 if exact_bytes else 0
+    if exact_bytes and zm == "none" and rng.random() < 0.15:
+        flags = 3      # the no-sweep model with the summary slot masked (kept as a cross-check)
     tags = [zm, "compress=%d" % o[0], "ips=%d" % ips, "bs=%d" % bs, "chroms=%d" % len(names), "bytes=%d" % (1 if exact_bytes else 0)]
     sizes = []; inp = []; per = {}
     for nm in names:
@@ -124,6 +126,16 @@ def bed_case(rng, tier, want="roundtrip", kind=None, compress=None, zoom_mode=No
             inp.append([nm, s, e, list(r)])
         tags.append("rest=" + str(rmode or "mixed"))
         per[nm] = (items, length)
+    # keep the zoom part small: long entries under a tiny resolution make tens of thousands of records
+    # (the zoom levels themselves are C08's subject; here they only have to be present)
+    span = max(max(e for _, e in per[nm][0]) for nm in names)
+    if o[5] and o[5][0]:
+        if span // max(1, min(z for z in o[5][0] if z > 0) if any(z > 0 for z in o[5][0]) else 1) > 1500:
+            o[5] = [[span // 300 + 1, span // 30 + 2]]
+            tags[0] = zm = "manual-scaled"
+    elif not o[5] and span // max(1, o[3]) > 1500:
+        o[3] = span // 300 + 1
+        tags[0] = zm = "auto-scaled"
     if rng.random() < 0.3:
         sizes.append(["chrUnused", 1000])
     rng.shuffle(sizes)
@@ -135,7 +147,7 @@ def bed_case(rng, tier, want="roundtrip", kind=None, compress=None, zoom_mode=No
     if want == "roundtrip":
         for nm in names:
             queries.append([0, nm, 0, per[nm][1]])
-        queries += [[5], [6], [8]]
+        queries += [[5], [6], [8], [4]]
         if rng.random() < 0.5:
             hist = [[nm, 0, per[nm][1]] for nm in names] * 2
             rng.shuffle(hist)
